@@ -60,8 +60,10 @@ def pattern(k, n):
 
 def execute(case):
     out, err = Collector('stdout'), Collector('stderr')
-    wc = {"name": "w", "numprocesses": case["np"], "graceful_timeout": 0.2,
-          "stdout_stream": {"stream": out}}
+    wc = {"name": "w", "numprocesses": case["np"], "graceful_timeout": 0.2}
+    has_out = case.get("stdout", True) or not case.get("stderr", True)
+    if has_out:
+        wc["stdout_stream"] = {"stream": out}
     if case.get("stderr", True):
         wc["stderr_stream"] = {"stream": err}
     watchers = [wc]
@@ -170,6 +172,8 @@ def execute(case):
                 ch = op[2]
                 if ch == 'stderr' and not case.get("stderr", True):
                     ch = 'stdout'
+                if ch == 'stdout' and not has_out:
+                    ch = 'stderr'
                 fd = k.procs[pid].wfd.get(ch)
                 if fd is None or (pid, ch) in closed:
                     continue
@@ -314,6 +318,7 @@ def _strategy():
         "stubborn": st.lists(st.booleans(), max_size=6),
         "np": st.integers(1, 4),
         "stderr": st.sampled_from([True, True, False]),
+        "stdout": st.sampled_from([True, True, True, False]),
         "ops": st.lists(op, min_size=1, max_size=40),
         "generations": st.sampled_from([0, 0, 0, 6, 25])})
 
